@@ -27,6 +27,7 @@ func c06Profile() Profile {
 	p.AuthSecret = true
 	p.GlobalKeys = []annChoice{{"external-has-lua", []string{"true"}}}
 	p.MaxIng = 6
+	p.CaseDupAnn = true
 	p.Paths = append(append([]string{}, basePaths...), "/oauth2")
 	p.Ann = []annChoice{
 		// backend scoped, conflicting values on shared services
